@@ -205,6 +205,15 @@ def _decode_side(prog, res, mod, kind, N, f):
         if okp and src.args[0] == PARSE:
             okp = is_const(src.args[1][1]) and const_val(src.args[1][1]) == 8
         res.ob("G-count", "%s::decode | the value pushed is exactly what the element decoder / 8-bit read returned" % mod, okp, show(pv, names), loc)
+        # ... and the list that is returned is that list, untouched otherwise (no pop / truncate / sort / reverse after the loop)
+        import looprules
+        recv = fa.call_args(pushb)[0]
+        r_ = recv
+        while r_.op in ("ref", "mem", "memval"):
+            r_ = r_.args[0]
+        if r_.op == "loc":
+            okm, dm = looprules.only_mutated_by(f, r_.args[1], {pushb})
+            res.ob("G-count", "%s::decode | the list is mutated only by that push" % mod, okm, dm, loc)
     # capacity guard: accepting arm has count in [0, N] exactly; rejecting arm returns CapacityExceeded
     if pushb is not None and N is not None:
         ni = iv.interval(_strip_casts(n_t) if False else n_t, pushb)
